@@ -2,7 +2,7 @@ import XC.Model.C15
 namespace XC.C15
 
 /-- `a2 mode=d|i|id path=… pw=HEX salt=HEX secret=HEX ad=HEX t=N m=N p=N len=N` -/
-def handle (line : String) : String :=
+def handle0 (line : String) : String :=
   let o := parseOp line
   if o.cmd != "a2" then "bad-op" else
   let mode? : Option Nat := match o.get? "mode" with
@@ -20,5 +20,11 @@ def handle (line : String) : String :=
       | .panic => "panic"
     | _, _, _, _ => "bad-op"
   | _, _, _, _, _ => "bad-op"
+
+/-- the harness appends ` mut=…` (caller-memory report of hx.Arena: inputs unmodified, nothing written outside
+    the permitted regions, nothing retained); the model is a pure function of contents, so it answers `mut=-` -/
+def handle (line : String) : String :=
+  let r := handle0 line
+  if r == "bad-op" then r else r ++ " mut=-"
 
 end XC.C15
